@@ -167,6 +167,7 @@ func (e Engine) Execute(r *core.Run) *core.Violation {
 			if !c.OK {
 				outcome = fmt.Sprintf("%s/%d", c.Res.Codespace, c.Res.Code)
 				r.Count("result:rejected")
+				r.Count("rej:" + op.Kind + ":" + outcome)
 			} else {
 				r.Count("result:ok")
 				r.Count("ok:" + op.Kind)
@@ -205,6 +206,17 @@ func (e Engine) Execute(r *core.Run) *core.Violation {
 		}
 		if r.Bool(g.bias["fault.export"], "fault.export") {
 			if v := w.exportImport(r, chk, L); v != nil {
+				return v
+			}
+		}
+	}
+	if r.Property == "C07" {
+		pct := 15
+		if r.Tier == "thorough" {
+			pct = 40
+		}
+		if r.Bool(pct, "c07.crossprocess") {
+			if v := chk.crossProcess(w); v != nil {
 				return v
 			}
 		}
